@@ -83,7 +83,7 @@ class Link(ModelElement):
                 raise TopologyException("Links connect interfaces only.")
             if len({i.node_id for i in interfaces}) != len(interfaces):
                 raise TopologyException("A link cannot connect an interface to itself.")
-            self._interfaces = interfaces
+            self._interfaces = list(interfaces)
             sliver = NetworkLinkSliver()
             sliver.node_id = self.node_id
             sliver.set_name(self.name)
